@@ -30,7 +30,7 @@ def F(*xs):
     return frozenset(xs)
 
 
-EMPTY_STR = F("STR", "NOTNONE", "EMPTY", "RS", "DEC")
+EMPTY_STR = F("STR", "NOTNONE", "EMPTY", "RS", "LS", "DEC")
 
 
 class Site:
@@ -401,7 +401,7 @@ class Interp:
                 if "NE" in f or any(x.startswith("CLS:") for x in f):
                     return None
                 if "STR" in f:
-                    e[test.id] = (f - {"NE"}) | {"EMPTY", "RS", "DEC"}
+                    e[test.id] = (f - {"NE"}) | {"EMPTY", "RS", "LS", "DEC"}
             return e
         if isinstance(test, ast.Compare) and len(test.ops) == 1:
             l, op, r = test.left, test.ops[0], test.comparators[0]
@@ -424,7 +424,7 @@ class Interp:
                     if pol == empty_when:
                         if "NE" in f:
                             return None
-                        e[x] = (f - {"NE"}) | {"EMPTY"} | ({"RS", "DEC"} if "STR" in f else set())
+                        e[x] = (f - {"NE"}) | {"EMPTY"} | ({"RS", "LS", "DEC"} if "STR" in f else set())
                     else:
                         if "EMPTY" in f:
                             return None
@@ -524,6 +524,8 @@ class Interp:
                 f = {"STR", "NOTNONE", "NE"}
                 if not e.value[-1].isspace():
                     f.add("RS")
+                if not e.value[0].isspace():
+                    f.add("LS")
                 if e.value.isdecimal():
                     f.add("DEC")
                 return frozenset(f)
@@ -598,6 +600,10 @@ class Interp:
             for x in ast.iter_child_nodes(e):
                 if isinstance(x, ast.expr):
                     self.eval(x, env, ctx)
+            # separator tests `s[0] == ","` only see the separator if s has no leading white space
+            if isinstance(e, ast.Compare) and len(e.ops) == 1 and isinstance(e.left, ast.Subscript) and isinstance(e.left.value, ast.Name) and isinstance(e.left.slice, ast.Constant) and e.left.slice.value == 0 and isinstance(e.comparators[0], ast.Constant) and e.comparators[0].value in (",", ":", ";", "="):
+                b = env.get(e.left.value.id, TOP)
+                self.site(ctx, e, "Spacing", F("LS"), b if isinstance(b, frozenset) else TOP)
             return F("NOTNONE")
         if isinstance(e, ast.Attribute):
             self.eval(e.value, env, ctx)
@@ -645,7 +651,7 @@ class Interp:
             m = f.attr
             r = recv if isinstance(recv, frozenset) else TOP
             if m == "strip" and not c.args:
-                out = {"STR", "NOTNONE", "RS"}
+                out = {"STR", "NOTNONE", "RS", "LS"}
                 if "NE" in r and "RS" in r:
                     out.add("NE")
                 if "EMPTY" in r:
